@@ -57,7 +57,8 @@ def option_changes(v):
         g, d, h = bool(o.get('gumbel', False)), bool(o.get('nosamp', False)), bool(o.get('hard', False))
         return [('none', []),
                 ('temperature', [('upd', 0.25, None, g or None, d or None)]),          # sampler flags passed again
-                ('temperature-bare', [('upd', 2.0, None, None, None)]),              # re-chooses the sampler from None arguments
+                ('temperature-bare', [('upd', 2.0, None, None, None)]),              # options that are not given keep their value
+                ('nosamp-and-back', [('upd', None, None, None, not d), ('upd', None, None, None, d)]),
                 ('hard', [('upd', None, not h, g or None, d or None)]),
                 ('hard-and-back', [('upd', None, not h, g or None, d or None), ('upd', None, h, g or None, d or None)]),
                 ('gumbel', [('upd', None, None, not g, None)]),
@@ -137,10 +138,9 @@ def cfg_literal(case, res):
     samplers = [rec(s_names=q['names'], s_reach=q['reach'], s_alpha=q['alpha'], s_prec=q['prec'], s_temp=Fraction(1),
                     s_theta=[Raw('CInit') for _ in q['alpha']]) for q in f['samplers']]
     pers = rec(p_bn=bool(f['bn']), p_net=[(n, d) for n, d in zip(f['plain'], f['digests'])], p_masks=masks, p_layers=layers, p_samplers=samplers)
-    smp = 'NoSamp' if (m == 'MPS' and o.get('nosamp')) else 'Gs' if o.get('gumbel') else 'Sm'
     temp = Fraction(f32(o.get('temperature', 1.0))) if m == 'MPS' else Fraction(1)
     return rec(c_meth=Raw(m), c_pers=pers, c_training=f['view']['training'], c_disc=bool(o.get('discrete_cost', False)),
-               c_hard=bool(o.get('hard', False)), c_smp=Raw(smp), c_temp=temp)
+               c_hard=bool(o.get('hard', False)), c_gum=bool(o.get('gumbel', False)), c_nos=bool(m == 'MPS' and o.get('nosamp', False)), c_temp=temp)
 
 
 def op_literal(op):
